@@ -2,6 +2,7 @@
 package c09
 
 import (
+	"encoding/csv"
 	"bytes"
 	"fmt"
 	"math"
@@ -575,8 +576,11 @@ func runErr(x *h.Ctx, c ErrCase) string {
 // print uses OFMT for non-integral numbers and prints integral ones as integers
 
 type PrintCase struct {
-	OFMT string  `json:"ofmt"`
-	Num  float64 `json:"num"`
+	OFMT    string  `json:"ofmt"`
+	Num     float64 `json:"num"`
+	Mode    string  `json:"mode"`    // "", csv, tsv: OUTPUTMODE
+	Convfmt string  `json:"convfmt"` // CONVFMT is set to something else, so that confusing the two shows
+	Where   int     `json:"where"`   // 0 BEGIN, 1 inside a function, 2 in a rule, 3 redirected to "-" (standard output)
 }
 
 func genPrint(t *rapid.T) PrintCase {
@@ -595,7 +599,8 @@ func genPrint(t *rapid.T) PrintCase {
 	default:
 		n = float64(rapid.Int64Range(-1<<53, 1<<53).Draw(t, "ri")) / float64(rapid.SampledFrom([]int{1, 2, 3, 10, 1000, 7}).Draw(t, "div"))
 	}
-	return PrintCase{OFMT: ofmt, Num: n}
+	return PrintCase{OFMT: ofmt, Num: n, Mode: rapid.SampledFrom([]string{"", "", "csv", "tsv"}).Draw(t, "mode"),
+		Convfmt: rapid.SampledFrom([]string{"%.6g", "%.6g", "%.2g", "%.12g", "%.1f"}).Draw(t, "convfmt"), Where: rapid.IntRange(0, 3).Draw(t, "where")}
 }
 
 func runPrint(x *h.Ctx, c PrintCase) string {
@@ -618,12 +623,44 @@ func runPrint(x *h.Ctx, c PrintCase) string {
 		return ""
 	}
 	numSrc := awkArgSource(Arg{Kind: "num", Num: c.Num}, new(int))
-	src := fmt.Sprintf("BEGIN { OFMT = %s; x = %s; print x; print x, x }", awk.QuoteStr(c.OFMT), numSrc)
-	got, _, err := runAwk(src, "", false)
+	if c.Convfmt == "" {
+		c.Convfmt = "%.6g"
+	}
+	setup := fmt.Sprintf("OFMT = %s; CONVFMT = %s; x = %s", awk.QuoteStr(c.OFMT), awk.QuoteStr(c.Convfmt), numSrc)
+	if c.Mode != "" {
+		setup += fmt.Sprintf("; OUTPUTMODE = %q", c.Mode)
+	}
+	var src string
+	switch c.Where {
+	case 1:
+		src = fmt.Sprintf("function p(v) { print v; print v, v } BEGIN { %s; p(x) }", setup)
+	case 2:
+		src = fmt.Sprintf("BEGIN { %s } { print x; print x, x }", setup)
+	case 3:
+		src = fmt.Sprintf("BEGIN { %s; print x > \"-\"; print x, x > \"-\" }", setup)
+	default:
+		src = fmt.Sprintf("BEGIN { %s; print x; print x, x }", setup)
+	}
+	got, _, err := runAwk(src, "one record\n", false)
 	if err != nil {
 		return fmt.Sprintf("print failed: %v\nprogram: %s", err, src)
 	}
-	exp := want + "\n" + want + " " + want + "\n"
+	var exp string
+	switch c.Mode {
+	case "csv", "tsv":
+		// the number text is what is judged here; quoting is the CSV writer's business (C08), so encoding/csv renders the expectation
+		var sb strings.Builder
+		w := csv.NewWriter(&sb)
+		if c.Mode == "tsv" {
+			w.Comma = '\t'
+		}
+		w.Write([]string{want})
+		w.Write([]string{want, want})
+		w.Flush()
+		exp = sb.String()
+	default:
+		exp = want + "\n" + want + " " + want + "\n"
+	}
 	if got != exp {
 		return fmt.Sprintf("print does not format the number the OFMT way\nprogram: %s\ngoawk: %q\nwant:  %q", src, got, exp)
 	}
